@@ -2,6 +2,7 @@ package main
 
 import (
 	"fmt"
+	"go/constant"
 	"go/token"
 	"go/types"
 	"strings"
@@ -119,6 +120,37 @@ func init() {
 				}
 			})
 			c.Check(len(starts) >= 1, "extract-site", c.P.Pos(fn.Pos()), fmt.Sprintf("%d extraction slice(s)", len(starts)), "no extraction slice unorderedChunks[a:b] found")
+			// (a) path enumeration: the scan's control skeleton has four abstract states
+			// ({run open?} × {complete?}); its effect per iteration does not depend on the
+			// iteration number, so every reachable combination shows within three
+			// iterations. On each enumerated path the loop index is a concrete number and
+			// the start of the extraction folds to a constant.
+			neg, unknown, seenPaths := "", 0, 0
+			outs, und := c.P.PEval(fn, PEConfig{LoopBound: 3, MaxPaths: 20000, MaxSteps: 400000,
+				Observe: func(in ssa.Instruction, get func(ssa.Value) constant.Value) {
+					sl, ok := in.(*ssa.Slice)
+					if !ok || !IsLoadOf(uc)(sl.X) || sl.Low == nil || sl.High == nil {
+						return
+					}
+					seenPaths++
+					v := get(sl.Low)
+					if v == nil || v.Kind() != constant.Int {
+						unknown++
+						return
+					}
+					if constant.Sign(v) < 0 {
+						neg = render(v)
+					}
+				}})
+			switch {
+			case und == "" && len(outs) > 0 && seenPaths > 0 && unknown == 0:
+				c.Check(neg == "", "extract-start-nonneg", c.P.Pos(fn.Pos()), fmt.Sprintf("the extraction starts at a non-negative index on all %d enumerated paths that reach it (≤3 iterations; 4 abstract states)", seenPaths), "a path through the scan reaches the extraction with start index "+neg+": a crafted unordered tail fragment slices unorderedChunks["+neg+":…] and panics the read loop")
+				return
+			case neg != "":
+				c.Fail("extract-start-nonneg", c.P.Pos(fn.Pos()), "a path through the scan reaches the extraction with start index "+neg+" (a crafted unordered tail fragment panics the read loop)")
+				return
+			}
+			// (b) structural fallback when the start does not fold to a constant
 			for _, st := range starts {
 				// every value the start can take is ≥ 0: a non-negative constant / loop index, or −1 guarded away
 				okAll := true
